@@ -27,8 +27,8 @@ from checks.worlda import (WorldA, draw_knobs, draw_sched, NODE_HOST, NODE_REALM
 
 APP_ID = 16777251
 STATES = ["server_closed", "client_wicea", "open", "open", "open_traffic", "closing"]
-MUTATIONS = ["truncate", "msg_len", "avp_len", "wrong_width", "bad_enum", "bad_family", "version",
-             "non_utf8", "misaddressed", "garbage", "flip", "huge_len", "dup_avp", "zero_avp", "empty"]
+MUTATIONS = ["truncate", "msg_len", "avp_len", "avp_len", "wrong_width", "bad_enum", "bad_family", "version",
+             "non_utf8", "misaddressed", "garbage", "flip", "huge_len", "dup_avp", "zero_avp", "empty", "vflag"]
 BASES = ["cer", "cea", "dwr", "dwa", "dpr", "dpa", "app_req", "app_ans", "app_req_big"]
 
 
@@ -93,10 +93,18 @@ def mutate(spec, n):
         return bytes(raw)
     offs = avp_offsets(raw)
     if mut == "avp_len" and offs:
-        off, length = r.choice(offs)
-        v = r.choice([0, 1, 4, 7, 8, 9, 11, 12, 13, length - 1, length + 1, length + 4, 0xffffff, 0x00ffff,
-                      len(raw), r.randrange(0, 1 << 24)])
+        voffs = [(o, l) for (o, l) in offs if raw[o + 4] & 0x80]
+        off, length = r.choice(voffs) if voffs and r.random() < 0.5 else r.choice(offs)
+        v = r.choice([0, 0, 1, 4, 7, 8, 9, 11, 12, 13, length - 1, length + 1, length + 4, 0xffffff, 0x00ffff,
+                      len(raw), r.randrange(0, 1 << 24), r.randrange(0, 16)])
         raw[off + 5:off + 8] = max(0, v).to_bytes(3, "big")
+        return bytes(raw)
+    if mut == "vflag" and offs:
+        # toggle the V bit of an AVP and give it an adversarial length
+        off, length = r.choice(offs)
+        raw[off + 4] ^= 0x80
+        if r.random() < 0.7:
+            raw[off + 5:off + 8] = r.choice([0, 8, 11, 12, 13, length]).to_bytes(3, "big")
         return bytes(raw)
     if mut == "zero_avp" and offs:
         off, length = r.choice(offs)
@@ -190,6 +198,7 @@ class C03(Check):
         knobs = draw_knobs(rng)
         knobs["SLEEP_TIMER"] = rng.choice([0.1, 0.3])
         return {"mode": mode, "state": state, "strings": strings, "sched": draw_sched(rng), "knobs": knobs,
+                "answer_mode": rng.choice(["none", "dup", "bad_hbh", "bad_e2e", "late_dup"]),
                 "net": {"max_latency": rng.choice([0.0005, 0.003]), "p_fragment": rng.choice([0.0, 0.3, 0.8]),
                         "max_fragments": rng.choice([2, 4, 12])},
                 "watchdog": 30, "horizon": 120.0}
@@ -215,6 +224,10 @@ class C03(Check):
             c = copy.deepcopy(scn)
             c["state"] = "open"
             yield c
+            if scn.get("answer_mode", "none") != "none":
+                c = copy.deepcopy(scn)
+                c["answer_mode"] = "none"
+                yield c
 
     def sample(self, scn, res):
         return {"mode": scn["mode"], "state": scn["state"],
@@ -301,6 +314,26 @@ class C03(Check):
                 consumer = w.start_consumer()
                 sim.sleep(5 * tick)
             if state == "open_traffic":
+                amode = scn.get("answer_mode", "none")
+
+                def answer_node_requests(m):
+                    if not C.is_request(m) or m["code"] in (C.CE, C.DW, C.DP) or amode == "none":
+                        return
+                    sess = C.find(m, C.SESSION_ID)
+                    hb, ee = m["hbh"], m["e2e"]
+                    a = lambda h, e: C.app_answer(m["app"], m["code"], h, e, sess[3] if sess else b"s;0;0", PEER_HOST, PEER_REALM)
+                    if amode == "dup":
+                        w.peer.send(a(hb, ee))
+                        w.peer.send(a(hb, ee))
+                    elif amode == "bad_hbh":
+                        w.peer.send(a(hb ^ 0x00010000, ee))
+                    elif amode == "bad_e2e":
+                        w.peer.send(a(hb, ee ^ 0x00000100))
+                    elif amode == "late_dup":
+                        w.peer.send(a(hb, ee))
+                        sim.after(5 * tick, lambda: w.peer.send(a(hb, ee)))
+                w.peer.on_message = answer_node_requests
+
                 def submit():
                     for i in range(4):
                         w.node.send_message(DiameterRequest(application_id=APP_ID, command_code=316, avps=[
